@@ -143,6 +143,8 @@ def solve_vc(pc, goal, timeout_ms, want_model=True):
     s.set('timeout', timeout_ms)
     s.add(*pc)
     s.add(z3.Not(goal))
+    from .builtins import global_axioms
+    s.add(*global_axioms(s.sexpr()))
     r = s.check()
     ms = int((time.time() - t0) * 1000)
     if r == z3.unsat:
@@ -170,7 +172,7 @@ def solve_vc(pc, goal, timeout_ms, want_model=True):
     return 'unknown', None, int((time.time() - t0) * 1000), 'z3+cvc5+z3-4.8', s.reason_unknown()
 
 
-def verify_target(db, reg, key, timeout_ms=20000, want_smt2=False):
+def verify_target(db, reg, key, timeout_ms=20000, want_smt2=False, findings=()):
     """-> TargetResult (JSON-able via .obligations/.info)"""
     res = TargetResult(key)
     c = reg.contracts[key]
@@ -220,7 +222,11 @@ def verify_target(db, reg, key, timeout_ms=20000, want_smt2=False):
                 pre_models.append(concretize_inputs(s.model(), env, st))
             snapshot = st.fork()
             ex.vcs = []
-            st.yielded = VSeq([], kind='list') if fi.is_generator else None
+            st.yielded = None
+            if fi.is_generator:
+                rty = parse_type(c.get('returns', 'list[opaque]'))
+                proto = ex.fresh(st, rty, 'y_empty')
+                st.yielded = VSeq(length=z3.IntVal(0), elem=proto.elem, kind='list')
             outs = ex.exec_block(st, fi.node.body)
             for s2, (kind, val) in outs:
                 if kind == RAISE:
@@ -277,9 +283,32 @@ def verify_target(db, reg, key, timeout_ms=20000, want_smt2=False):
             o['paths'] += 1
             if o['verdict'] == 'sat' and vc.kind != 'must_fail':
                 continue
-            if vc.kind == 'must_fail' and o.get('refuted_once'):
+            if vc.kind == 'must_fail':
+                if o.get('refuted_once'):
+                    continue
+                verdict, model, ms, backend, why = solve_vc(vc.pc, vc.goal, min(timeout_ms, 2000))
+                o['ms'] += ms
+                if verdict != 'unsat':
+                    o['refuted_once'] = True     # sat, or at least not provable: the false clause is not "proved"
+                    o['must_fail_verdict'] = verdict
                 continue
-            verdict, model, ms, backend, why = solve_vc(vc.pc, vc.goal, timeout_ms)
+            fnd = [f for f in findings if f['obligation'].endswith('.' + vc.oid)]
+            pc = vc.pc
+            if fnd and vc.kind != 'must_fail':
+                # known finding: prove the obligation OUTSIDE the recorded failure class, and show that the
+                # recorded failure is still there
+                sp = vc.snapshot.fork()
+                sp.spec = True
+                sp.env = dict(vc.inputs)
+                sp.pc = list(vc.pc)
+                klass = ex.spec_bool(sp, fnd[0]['class'])
+                v_in, _m, ms_in, _b, _w = solve_vc(list(vc.pc) + [klass], vc.goal, timeout_ms)
+                o['ms'] += ms_in
+                if v_in == 'sat':
+                    o['known'] = True
+                    o['finding_what'] = fnd[0].get('what', '')
+                pc = list(vc.pc) + [z3.Not(klass)]
+            verdict, model, ms, backend, why = solve_vc(pc, vc.goal, timeout_ms)
             o['ms'] += ms
             if backend not in o['backend']:
                 o['backend'].append(backend)
@@ -308,6 +337,8 @@ def verify_target(db, reg, key, timeout_ms=20000, want_smt2=False):
             if o['kind'] == 'must_fail':
                 o['verdict'] = 'unsat' if o.get('refuted_once') else 'vacuous'
                 o['clause'] = 'deliberately false postcondition is refuted: ' + str(o['clause'])
+            elif o['verdict'] == 'pending' and o.get('known'):
+                o['verdict'] = 'known'
             elif o['verdict'] == 'pending':
                 o['verdict'] = 'unsat' if o['paths'] > 0 or o['kind'] not in ('ensures',) else 'vacuous'
             o['backend'] = ','.join(o['backend']) if isinstance(o['backend'], list) else o['backend']
